@@ -36,6 +36,13 @@ CLAIMED = {
             "and a body of <= N instructions (quick 2, thorough 3): the real simplify::<DefaultHandler>: body equals the real expansion's, no calibrations, exactly the used "
             "frames / invoked waveforms / called externs kept, other definitions unchanged. The clause on computed schedules is not covered.",
             TRUST + "; schedule clause outside the claim", "5/C35"),
+    "C20": ("Programs of <= K gate definitions (quick 2, thorough 3; sequence definitions of one or two elements on one or two qubits with / without a parameter, a DAGGER element, "
+            "a matrix definition) whose names and element names the solver chooses from {A,B,C} (nesting, self-reference, cycles, redefinition, arity mismatch), <= N body "
+            "instructions (quick 1, thorough 2) and every filter over the names: both entry points against a reference expander; errors exactly for cycles / arity / modifier / "
+            "non-fixed qubit misuse; kept definitions = unselected or reachable from unselected; termination (call depth bound).", TRUST, "5/C20"),
+    "C21": ("Same inputs as C20: both entry points return the same program / the same error kind; the source map has one entry per source instruction in order, unmodified entries "
+            "point at identical instructions, rewritten ranges are contiguous and equal to what the reference produced, nested maps relative to the parent range, recursively.",
+            TRUST, "5/C21"),
     "C22": ("All single blocks of <= N instructions (quick 2, thorough 3) plus an optional terminator over 16 classical / RF templates with solver-chosen operands, "
             "scheduled by the real ScheduledProgram::from_program: every edge points forward in block order; with all RF instructions matched every node is reachable "
             "from the start and reaches the end.", TRUST, "5/C22"),
